@@ -32,10 +32,6 @@ static FWire c01(Reader& r,FReader& f) {
     Strings enames, mnames;
     for (size_t i=0;i<nelec;++i) enames.push_back("E"+std::to_string(i));
     for (size_t i=0;i<nmeg;++i)  mnames.push_back("M"+std::to_string(i));
-    Vector ew(nelec), er(nelec), mw(nmeg), mr(nmeg);
-    ew.set(1.0); er.set(0.0); mw.set(1.0); mr.set(0.0);
-    const Sensors electrodes(enames,epos,Matrix(),ew,er);
-    const Sensors squids(mnames,mpos,mori,mw,mr);
 
     SymMatrix HM = HeadMat(geo);                      // om_assemble -HM
     const size_t hmsize = HM.nlin();
@@ -43,12 +39,16 @@ static FWire c01(Reader& r,FReader& f) {
     const Matrix dsm = DipSourceMat(geo,dipoles,Integrator(3,10,0.001),"");   // om_assemble -DSM (adaptive, as the tool)
     FWire out; out.z = Wire{ST_OK,(ll)nelec,(ll)ndip,(ll)nmeg,(ll)hmsize};
     if (nelec>0) {
+        Vector ew(nelec), er(nelec); ew.set(1.0); er.set(0.0);
+        const Sensors electrodes(enames,epos,Matrix(),ew,er);
         const SparseMatrix h2em = Head2EEGMat(geo,electrodes);                 // om_assemble -H2EM
         const GainEEG G(HM,dsm,h2em);                                         // om_gain -EEG
         if (G.nlin()!=nelec || G.ncol()!=ndip) throw std::runtime_error("GainEEG shape");
         for (size_t i=0;i<nelec;++i) for (size_t j=0;j<ndip;++j) out.f.push_back(G(i,j));
     }
     if (nmeg>0) {
+        Vector mw(nmeg), mr(nmeg); mw.set(1.0); mr.set(0.0);
+        const Sensors squids(mnames,mpos,mori,mw,mr);
         const Matrix h2mm  = Head2MEGMat(geo,squids);                          // om_assemble -H2MM
         const Matrix ds2mm = DipSource2MEGMat(dipoles,squids);                 // om_assemble -DS2MM
         const GainMEG G(HM,dsm,h2mm,ds2mm);                                   // om_gain -MEG
